@@ -1,4 +1,4 @@
-(* C08 -- spectral-density converters (list model), Snell, Fresnel (real refractive indices). *)
+(* C08 -- spectral-density converters (list model), Snell, Fresnel (real and complex refractive index n2). *)
 From Coq Require Import Reals Lra Lia List.
 From Coquelicot Require Import Rcomplements.
 From TyphonGen Require Import em.
@@ -216,6 +216,11 @@ Lemma ratio_abs_le_1 a b : 0 <= a -> 0 <= b -> 0 < a + b -> Rabs ((a - b) / (a +
 Proof. intros Ha Hb Hab. unfold Rdiv. rewrite Rabs_mult, (Rabs_pos_eq (/ (a + b))) by (left; apply Rinv_0_lt_compat; lra).
   apply Rle_div_l; [lra|]. rewrite Rmult_1_l. apply Rabs_le. lra. Qed.
 
+(* the same bound in a form that does not depend on how numerator and denominator are written *)
+Lemma quot_abs_le_1 p q : 0 < q -> - q <= p <= q -> Rabs (p / q) <= 1.
+Proof. intros Hq Hp. unfold Rdiv. rewrite Rabs_mult, (Rabs_pos_eq (/ q)) by (left; apply Rinv_0_lt_compat; lra).
+  apply Rle_div_l; [lra|]. rewrite Rmult_1_l. apply Rabs_le. lra. Qed.
+
 Lemma fresnel_bounded n1 n2 t : 0 < n1 -> 0 < n2 -> 0 <= t < 90 -> n1 * sin (t * PI / 180) <= n2 ->
   Rabs (fst (fresnel n1 n2 t)) <= 1 /\ Rabs (snd (fresnel n1 n2 t)) <= 1.
 Proof.
@@ -227,9 +232,9 @@ Proof.
     - apply Rlt_le_trans with 0; [lra|]. apply Rmult_le_pos; [apply Rmult_le_pos; lra|lra].
     - apply Rlt_div_l; [lra|]. nra. }
   set (c1 := cos (t * PI / 180)) in *. set (c2 := cos (snell n1 n2 t * PI / 180)) in *.
-  split.
-  - apply ratio_abs_le_1; nra.
-  - apply ratio_abs_le_1; nra.
+  assert (0 < n2 * c1) by (apply Rmult_lt_0_compat; lra). assert (0 < n1 * c1) by (apply Rmult_lt_0_compat; lra).
+  assert (0 <= n1 * c2) by (apply Rmult_le_pos; lra). assert (0 <= n2 * c2) by (apply Rmult_le_pos; lra).
+  split; (apply quot_abs_le_1; [lra|split; lra]).
 Qed.
 
 Lemma fresnel_normal_incidence n1 n2 : 0 < n1 -> 0 < n2 ->
@@ -239,8 +244,7 @@ Proof.
   replace (0 * PI / 180) with 0 by (field; apply PI_neq0). rewrite sin_0.
   replace (n1 * 0 / n2) with 0 by (field; lra). rewrite asin_0.
   replace (0 * 180 / PI * PI / 180) with 0 by (field; apply PI_neq0). rewrite cos_0.
-  replace ((n1 * 1 - n2 * 1) / (n1 * 1 + n2 * 1)) with (- ((n2 * 1 - n1 * 1) / (n2 * 1 + n1 * 1))) by (field; lra).
-  rewrite Rabs_Ropp. reflexivity.
+  rewrite <- Rabs_Ropp. f_equal. field; repeat split; lra.
 Qed.
 
 Lemma fresnel_brewster n1 n2 t : 0 < n1 -> 0 < n2 -> 0 < t < 90 -> tan (t * PI / 180) = n2 / n1 ->
@@ -262,5 +266,128 @@ Proof.
   rewrite cos_asin by exact Hcr.
   assert (Hsq : sqrt (1 - (cos a)²) = sin a).
   { rewrite <- (sqrt_Rsqr (sin a)) by lra. f_equal. pose proof (sin2_cos2 a). unfold Rsqr in *. lra. }
-  rewrite Hsq. replace (n2 * cos a - n1 * sin a) with 0 by lra. unfold Rdiv. apply Rmult_0_l.
+  rewrite Hsq. match goal with |- ?p / _ = 0 => replace p with 0 by lra end. unfold Rdiv. apply Rmult_0_l.
 Qed.
+
+(* ---------- Fresnel with a complex refractive index n2 = n2r + i n2i ---------- *)
+Lemma snell_complex_cos_nonneg n1 n2r n2i t : 0 <= cos (snell_complex_n2 n1 n2r n2i t * PI / 180).
+Proof. unfold snell_complex_n2. cbv zeta. rewrite rad_deg.
+  match goal with |- 0 <= cos (asin ?y) => pose proof (asin_bound y) as Hb end.
+  apply cos_ge_0; lra. Qed.
+
+Lemma cos_rad_pos t : 0 <= t < 90 -> 0 < cos (t * PI / 180).
+Proof. intros Ht. pose proof PI_RGT_0. apply cos_gt_0.
+  - apply Rlt_le_trans with 0; [lra|]. apply Rmult_le_pos; [apply Rmult_le_pos; lra|lra].
+  - apply Rlt_div_l; [lra|]. nra. Qed.
+
+(* |(nr + i ni) / (dr + i di)|^2 = (nr^2 + ni^2) / (dr^2 + di^2), in the form the translator writes a complex quotient *)
+Lemma cdiv_mod2 nr ni dr di : 0 < dr * dr + di * di ->
+  let re := (nr * dr + ni * di) / (dr * dr + di * di) in
+  let im := (ni * dr - nr * di) / (dr * dr + di * di) in
+  re * re + im * im = (nr * nr + ni * ni) / (dr * dr + di * di).
+Proof. intros HD. cbv zeta. field. lra. Qed.
+
+Lemma cquot_le_1 nr ni dr di : 0 < dr * dr + di * di -> nr * nr + ni * ni <= dr * dr + di * di ->
+  sqrt ((nr * dr + ni * di) / (dr * dr + di * di) * ((nr * dr + ni * di) / (dr * dr + di * di)) +
+        (ni * dr - nr * di) / (dr * dr + di * di) * ((ni * dr - nr * di) / (dr * dr + di * di))) <= 1.
+Proof. intros HD Hle. pose proof (cdiv_mod2 nr ni dr di HD) as E. cbv zeta in E. rewrite E.
+  rewrite <- sqrt_1. apply sqrt_le_1_alt. apply Rle_div_l; lra. Qed.
+
+Lemma cquot_lt_1 nr ni dr di : 0 < dr * dr + di * di -> nr * nr + ni * ni < dr * dr + di * di ->
+  sqrt ((nr * dr + ni * di) / (dr * dr + di * di) * ((nr * dr + ni * di) / (dr * dr + di * di)) +
+        (ni * dr - nr * di) / (dr * dr + di * di) * ((ni * dr - nr * di) / (dr * dr + di * di))) < 1.
+Proof. intros HD Hlt. pose proof (cdiv_mod2 nr ni dr di HD) as E. cbv zeta in E. rewrite E.
+  rewrite <- sqrt_1. apply sqrt_lt_1_alt. split.
+  - apply Rdiv_le_0_compat; [|lra]. pose proof (Rle_0_sqr nr). pose proof (Rle_0_sqr ni). unfold Rsqr in *. lra.
+  - apply Rlt_div_l; lra. Qed.
+
+(* the products that decide everything: x = n2r c1 > 0 resp. n1 c1 > 0 and y = n1 c2, n2r c2 >= 0 *)
+Ltac fresnel_products n1 n2r c1 c2 :=
+  assert (0 < n2r * c1) by (apply Rmult_lt_0_compat; lra);
+  assert (0 < n1 * c1) by (apply Rmult_lt_0_compat; lra);
+  assert (0 <= n1 * c2) by (apply Rmult_le_pos; lra);
+  assert (0 <= n2r * c2) by (apply Rmult_le_pos; lra);
+  assert (0 <= (n2r * c1) * (n1 * c2)) by (apply Rmult_le_pos; lra);
+  assert (0 <= (n1 * c1) * (n2r * c2)) by (apply Rmult_le_pos; lra).
+
+Lemma fresnel_complex_denominators n1 n2r n2i t : 0 < n1 -> 0 < n2r -> 0 <= t < 90 ->
+  let c1 := cos (t * PI / 180) in
+  let c2 := cos (snell_complex_n2 n1 n2r n2i t * PI / 180) in
+  0 < (n2r * c1 + n1 * c2) * (n2r * c1 + n1 * c2) + (n2i * c1) * (n2i * c1) /\
+  0 < (n1 * c1 + n2r * c2) * (n1 * c1 + n2r * c2) + (n2i * c2) * (n2i * c2).
+Proof. intros H1 H2 Ht. cbv zeta.
+  pose proof (cos_rad_pos t Ht) as Hc1. pose proof (snell_complex_cos_nonneg n1 n2r n2i t) as Hc2.
+  set (c1 := cos (t * PI / 180)) in *. set (c2 := cos (snell_complex_n2 n1 n2r n2i t * PI / 180)) in *.
+  fresnel_products n1 n2r c1 c2. split; nra. Qed.
+
+Lemma fresnel_complex_bounded n1 n2r n2i t : 0 < n1 -> 0 < n2r -> 0 <= t < 90 ->
+  cabs (fst (fresnel_complex_n2 n1 n2r n2i t)) <= 1 /\ cabs (snd (fresnel_complex_n2 n1 n2r n2i t)) <= 1.
+Proof. intros H1 H2 Ht. unfold fresnel_complex_n2, cabs. cbv zeta. cbn [fst snd].
+  pose proof (cos_rad_pos t Ht) as Hc1. pose proof (snell_complex_cos_nonneg n1 n2r n2i t) as Hc2.
+  set (c1 := cos (t * PI / 180)) in *. set (c2 := cos (snell_complex_n2 n1 n2r n2i t * PI / 180)) in *.
+  fresnel_products n1 n2r c1 c2. split; (apply cquot_le_1; [nra|nra]). Qed.
+
+(* with a vanishing imaginary part the complex computation IS the real one (up to total reflection) *)
+Lemma fresnel_complex_real_limit n1 n2 t : 0 < n1 -> 0 < n2 -> 0 <= t < 90 -> n1 * sin (t * PI / 180) <= n2 ->
+  fresnel_complex_n2 n1 n2 0 t = ((fst (fresnel n1 n2 t), 0), (snd (fresnel n1 n2 t), 0)).
+Proof. intros H1 H2 Ht Htot. assert (Ht' : 0 <= t <= 90) by lra.
+  unfold fresnel_complex_n2, fresnel. cbv zeta. cbn [fst snd].
+  rewrite (snell_complex_real_limit n1 n2 t H1 H2 Ht' Htot).
+  pose proof (cos_rad_pos t Ht) as Hc1. pose proof (snell_angle_range n1 n2 t H1 H2 Ht' Htot) as Hc2.
+  set (c1 := cos (t * PI / 180)) in *. set (c2 := cos (snell n1 n2 t * PI / 180)) in *.
+  fresnel_products n1 n2 c1 c2. f_equal; f_equal; field; nra. Qed.
+
+(* normal incidence: Rh = - Rv exactly, for every complex n2 *)
+Lemma fresnel_complex_normal_opp n1 n2r n2i : 0 < n1 -> 0 < n2r ->
+  let '(Rv, Rh) := fresnel_complex_n2 n1 n2r n2i 0 in fst Rh = - fst Rv /\ snd Rh = - snd Rv.
+Proof. intros H1 H2. unfold fresnel_complex_n2, snell_complex_n2. cbv zeta.
+  replace (0 * PI / 180) with 0 by (field; apply PI_neq0). rewrite sin_0.
+  match goal with |- context [asin (0 / ?d)] => replace (0 / d) with 0 by (unfold Rdiv; ring) end.
+  rewrite asin_0. replace (0 * 180 / PI * PI / 180) with 0 by (field; apply PI_neq0). rewrite cos_0.
+  cbn [fst snd]. split; field; nra. Qed.
+
+Lemma fresnel_complex_normal n1 n2r n2i : 0 < n1 -> 0 < n2r ->
+  cabs (fst (fresnel_complex_n2 n1 n2r n2i 0)) = cabs (snd (fresnel_complex_n2 n1 n2r n2i 0)).
+Proof. intros H1 H2. pose proof (fresnel_complex_normal_opp n1 n2r n2i H1 H2) as H.
+  destruct (fresnel_complex_n2 n1 n2r n2i 0) as [Rv Rh]. destruct H as [Ha Hb]. unfold cabs. cbn [fst snd].
+  rewrite Ha, Hb. f_equal. ring. Qed.
+
+(* an absorbing medium (Im n2 <> 0): the real angle of refraction stays below 90 degrees ... *)
+Lemma snell_complex_cos_pos n1 n2r n2i t : 0 < n1 -> 0 < n2r -> n2i <> 0 -> 0 <= t <= 90 ->
+  0 < cos (snell_complex_n2 n1 n2r n2i t * PI / 180).
+Proof. intros H1 H2 Hi Ht.
+  destruct (snell_complex_liou n1 n2r n2i t H1 H2 Ht) as [Hpos Hlaw]. cbv zeta in Hpos, Hlaw.
+  pose proof (sin_rad_range t Ht) as Hs. set (s := sin (t * PI / 180)) in *.
+  set (wre := (n2r / n1) ^ 2 - (n2i / n1) ^ 2 - s * s) in *. set (wim := 2 * (n2r / n1) * (n2i / n1)) in *.
+  destruct (complex_sqrt_parts wre wim) as (Hq & Hqi & _ & Hprod). cbv zeta in Hq, Hqi, Hprod.
+  set (qr2 := (sqrt (wre ^ 2 + wim ^ 2) + wre) / 2) in *.
+  assert (Hw : wim <> 0).
+  { unfold wim. assert (0 < n2r / n1) by (apply Rdiv_lt_0_compat; lra).
+    assert (n2i / n1 <> 0) by (unfold Rdiv; apply Rmult_integral_contrapositive_currified; [exact Hi|apply Rinv_neq_0_compat; lra]).
+    apply Rmult_integral_contrapositive_currified; [|assumption]. apply Rmult_integral_contrapositive_currified; lra. }
+  assert (Hw2 : 0 < wim ^ 2) by (apply pow2_gt_0; exact Hw).
+  assert (Hqpos : 0 < qr2).
+  { destruct (Rle_lt_dec qr2 0) as [Hle|Hlt]; [|exact Hlt]. assert (E : qr2 = 0) by lra. rewrite E in Hprod. lra. }
+  set (Nr := sqrt (s * s + qr2)) in *.
+  assert (HNr : 0 < Nr) by (apply sqrt_lt_R0; exact Hpos).
+  assert (HNr2 : Nr * Nr = s * s + qr2) by (apply sqrt_sqrt; lra).
+  assert (HsN : s < Nr) by (destruct (Rlt_le_dec s Nr) as [Hok|Hbad]; [exact Hok|nra]).
+  pose proof (snell_complex_cos_nonneg n1 n2r n2i t) as Hc.
+  set (a := snell_complex_n2 n1 n2r n2i t * PI / 180) in *.
+  destruct Hc as [Hc|Hc]; [exact Hc|exfalso].
+  pose proof (sin2_cos2 a) as Hsc. unfold Rsqr in Hsc. rewrite <- Hc in Hsc.
+  assert (Hs1 : sin a = 1 \/ sin a = -1).
+  { assert ((sin a - 1) * (sin a + 1) = 0) by lra. apply Rmult_integral in H. destruct H; [left|right]; lra. }
+  destruct Hs1 as [E|E]; rewrite E in Hlaw; lra.
+Qed.
+
+(* ... so it never reflects totally *)
+Lemma fresnel_complex_strict n1 n2r n2i t : 0 < n1 -> 0 < n2r -> n2i <> 0 -> 0 <= t < 90 ->
+  cabs (fst (fresnel_complex_n2 n1 n2r n2i t)) < 1 /\ cabs (snd (fresnel_complex_n2 n1 n2r n2i t)) < 1.
+Proof. intros H1 H2 Hi Ht. assert (Ht' : 0 <= t <= 90) by lra. unfold fresnel_complex_n2, cabs. cbv zeta. cbn [fst snd].
+  pose proof (cos_rad_pos t Ht) as Hc1. pose proof (snell_complex_cos_pos n1 n2r n2i t H1 H2 Hi Ht') as Hc2.
+  set (c1 := cos (t * PI / 180)) in *. set (c2 := cos (snell_complex_n2 n1 n2r n2i t * PI / 180)) in *.
+  fresnel_products n1 n2r c1 c2.
+  assert (0 < (n2r * c1) * (n1 * c2)) by (apply Rmult_lt_0_compat; [lra|apply Rmult_lt_0_compat; lra]).
+  assert (0 < (n1 * c1) * (n2r * c2)) by (apply Rmult_lt_0_compat; [lra|apply Rmult_lt_0_compat; lra]).
+  split; (apply cquot_lt_1; [nra|nra]). Qed.
